@@ -49,7 +49,7 @@ CUSTOM_SCHEMES = ["apr_md5_crypt", "md5_crypt", "sha256_crypt", "des_crypt", "ld
 DS_ALIASES = {"portable_apache_22": "apr_md5_crypt", "linux_apache_22": "sha256_crypt", "portable": "bcrypt", "portable_apache_24": "bcrypt",
               "linux_apache_24": "bcrypt", "host": "bcrypt", "host_apache_24": "bcrypt",
               "host_apache_22": "bcrypt"}  # (this image's crypt(3) serves bcrypt: the host's strongest)
-BAD_NAMES = ["a:b", "a\nb", "a\rb", "a\tb", "a\x00b", "x" * 256, ":", "\n", "é" * 128]  # (the last one: 128 characters, 256 UTF-8 bytes)
+BAD_NAMES = ["a:b", "a\nb", "a\rb", "a\tb", "a\x00b", "x" * 256, ":", "\n", "é" * 128, "a\x0bb", "a\x1fb", "a\x7fb", "\x1bx", "x\x0c"]  # (the last one: 128 characters, 256 UTF-8 bytes)
 
 
 # ---------------------------------------------------------------------------------------------
@@ -121,7 +121,7 @@ def generate(rng, prop, tier):
     nops = rng.randint(5, 30 if tier == "quick" else 40)
     kinds = ["set_password", "set_password", "set_hash", "set_hash", "delete", "delete", "check_password", "check_password",
              "check_password", "get_hash", "users", "load", "load_string", "load_if_changed", "load_if_changed", "save", "save",
-             "tick", "tick", "bad_name"]
+             "tick", "tick", "bad_name", "odd_name"]
     if cls == "htdigest":
         kinds += ["delete_realm", "realms"]
     kinds += ["external_edit"] * 3 + ["save_as", "load_from", "rebind", "toggle"]
@@ -163,6 +163,10 @@ def generate(rng, prop, tier):
         elif k == "bad_name":
             ops.append({"op": k, "o": o, "method": rng.choice(["set_password", "set_hash", "delete", "get_hash", "check_password", "users", "delete_realm"]),
                         "name": rng.choice(BAD_NAMES), "which": rng.choice(["user", "realm", "realm", "default_realm"] if cls == "htdigest" else ["user"])})
+        elif k == "odd_name":
+            # legal-looking names that collide with the file syntax: a record line that begins with '#' reads as a comment
+            ops.append({"op": k, "o": o, "name": rng.choice(["#dave", " #x", "#", "# a comment", "a#b", "x #"]),
+                        "which": rng.choice(["user", "user", "realm"] if cls == "htdigest" else ["user"]), "via": rng.choice(["set_password", "set_hash"])})
         elif k == "external_edit":
             ops.append({"op": k, "kind": rng.choice(["append_rec", "append_rec", "remove_line", "swap_lines", "add_comment", "add_blank",
                                                      "dup_line", "malformed", "crlf", "strip_final_newline", "replace_all", "truncate_file",
@@ -872,6 +876,42 @@ class _W:
         o["model"].mtime_read = None
         self.verify_state(o, "rebind")
 
+    def op_odd_name(self, op, o):
+        """a name that is no separator / control character problem but collides with the file syntax: either it is refused
+        (nothing changes), or the user is really there -- in the export too, as the independent reader sees it"""
+        ctx = self.ctx
+        ht = o["ht"]
+        name = op["name"]
+        before = ht.to_string()
+        user, realm = (name, "r1") if op["which"] == "user" else ("alice9", name)
+        key = self.b(user) if self.nf == 2 else (self.b(user), self.b(realm))
+        if self.nf == 2:
+            a = (user, "pw") if op["via"] == "set_password" else (user, "$apr1$abcdefgh$" + "x" * 22)
+        else:
+            a = (user, realm, "pw") if op["via"] == "set_password" else (user, realm, "0" * 32)
+        was_autosave = ht.autosave
+        ht.autosave = False  # (this probe is about the export; saving is exercised elsewhere)
+        try:
+            r = self.call(getattr(ht, op["via"]), *a)
+            self.fs.reset_fired()
+            if r[0] == "exc":
+                ctx.check(isinstance(r[2], ValueError), "C16", "odd-name-raises", f"{op['via']}{a!r} -> {r[:2]}")
+                ctx.check(ht.to_string() == before, "C16", "refused-call-changed-state", f"{op['via']}{a!r} changed the database")
+                return
+            out = ht.to_string()
+            try:
+                recs, count = reader(out if isinstance(out, bytes) else out.encode(self.enc), self.nf)
+            except Malformed as e:
+                ctx.fail("C16", "export-unparseable", f"after {op['via']}{a!r}: {e}")
+            ctx.check(count.get(key) == 1, "C16", "accepted-user-missing-from-export",
+                      lambda: f"{op['via']}{a!r} was accepted, but the exported text does not contain that user (independent reader: {sorted(recs)[:6]})",
+                      name_class="comment-like" if name.lstrip().startswith("#") else "other")
+            d = self.call(ht.delete, *a[:self.nf - 1])
+            ctx.check(d == ("ok", True) and ht.to_string() == before, "C16", "odd-name-not-deleted", f"delete{a[:self.nf - 1]!r} -> {d[:2]}")
+        finally:
+            ht.autosave = was_autosave
+        ctx.nontrivial = True
+
     def op_bad_name(self, op, o):
         ctx = self.ctx
         ht = o["ht"]
@@ -1011,6 +1051,8 @@ def execute(program, ctx):
                 ctx.fault("clock_step_back")
         elif k == "bad_name":
             w.op_bad_name(op, o)
+        elif k == "odd_name":
+            w.op_odd_name(op, o)
         elif k == "external_edit":
             w.op_external(op)
         elif k == "io_fault":
